@@ -230,6 +230,14 @@ func inflateMessage(compressed []byte, hasFinal bool) ([]byte, string) {
 	return out, ""
 }
 
+// inflateLoose: payload ++ 00 00 ff ff through the bare decoder, reading up to
+// the final block if there is one (bytes after it are ignored) or to the end.
+func inflateLoose(compressed []byte) ([]byte, error) {
+	stream := append(append([]byte(nil), compressed...), tail...)
+	stream = append(stream, finalBlock...)
+	return io.ReadAll(flate.NewReader(bytes.NewReader(stream)))
+}
+
 func flateCtor(level int) func(io.Writer) wsflate.Compressor {
 	return func(w io.Writer) wsflate.Compressor {
 		f, err := flate.NewWriter(w, level)
@@ -585,6 +593,16 @@ func TestRoundTrip(t *testing.T) {
 			t.Fatalf("own output of %s level %d served as %+v: recovered a different message: %s", pat, level, plan1, firstDiff(got, payload))
 		}
 
+		// the same through the helper's one-shot decompression
+		hlp := wsflate.Helper{Decompressor: flateDtor}
+		if got, err := hlp.Decompress(own); err != nil || !bytes.Equal(got, payload) {
+			t.Fatalf("Helper.Decompress of the own output of %s level %d payload %s(%d): err=%v, %s", pat, level, class, len(payload), err, firstDiff(got, payload))
+		}
+		var gb growBuf
+		if err := hlp.DecompressTo(&gb, own); err != nil || !bytes.Equal(gb.b, payload) {
+			t.Fatalf("Helper.DecompressTo of the own output of %s level %d payload %s(%d): err=%v, %s", pat, level, class, len(payload), err, firstDiff(gb.b, payload))
+		}
+
 		// Oracle B (ii): an independent encoder with the same write/flush pattern
 		var ext bytes.Buffer
 		fw, err := flate.NewWriter(&ext, extLevel)
@@ -779,12 +797,72 @@ func TestFrameHelpers(t *testing.T) {
 		fw.Flush()
 		eb := ext.Bytes()
 		eb = eb[:len(eb)-4]
-		extFrame := ws.Frame{Header: h, Payload: eb}
-		extFrame.Header.Rsv |= 0x4
-		extFrame.Header.Length = int64(len(eb))
+		mk := func(b []byte) ws.Frame {
+			f := ws.Frame{Header: h, Payload: b}
+			f.Header.Rsv |= 0x4
+			f.Header.Length = int64(len(b))
+			return f
+		}
+		type compressedInput struct {
+			src string
+			f   ws.Frame
+		}
+		inputs := []compressedInput{{"own", cf}, {"independent encoder, sync-flushed, tail stripped", mk(eb)}}
+		{
+			// messages whose DEFLATE stream ends with BFINAL=1 (RFC 7692 §7.2.3.4): the
+			// inflater then hands out the last bytes together with the end of stream
+			var c bytes.Buffer
+			cw, _ := flate.NewWriter(&c, genLevel(t, "closelevel"))
+			for _, piece := range gen.Split(t, "close.split", payload, 3) {
+				if c.Len() > 0 || rapid.Bool().Draw(t, "close.flush-between") {
+					cw.Flush()
+				}
+				cw.Write(piece)
+			}
+			cw.Close()
+			cb := append([]byte(nil), c.Bytes()...)
+			inputs = append(inputs, compressedInput{"independent encoder, ended by Close, as is", mk(cb)})
+			if bytes.HasSuffix(cb, tail) {
+				inputs = append(inputs, compressedInput{"independent encoder, ended by Close, last 4 bytes stripped", mk(cb[:len(cb)-4])})
+			}
+			if len(payload) <= 0xffff {
+				// hand-made: optional sync-flushed first part, then one final stored block carrying the rest
+				cut := rapid.IntRange(0, len(payload)).Draw(t, "stored.cut")
+				var sb bytes.Buffer
+				if cut > 0 {
+					sw, _ := flate.NewWriter(&sb, genLevel(t, "storedlevel"))
+					sw.Write(payload[:cut])
+					sw.Flush()
+				}
+				rest := payload[cut:]
+				sb.Write([]byte{0x01, byte(len(rest)), byte(len(rest) >> 8), ^byte(len(rest)), ^byte(len(rest) >> 8)})
+				sb.Write(rest)
+				if rapid.Bool().Draw(t, "stored.rfc-padding") {
+					sb.WriteByte(0x00) // §7.2.3.4: empty block appended, its 00 00 ff ff removed
+				}
+				inputs = append(inputs, compressedInput{"hand-made final stored block carrying data", mk(append([]byte(nil), sb.Bytes()...))})
+			}
+			// the library Writer ended by Close alone (README wiring)
+			orec := tx.NewRec()
+			ow := wsflate.NewWriter(orec, rechunkCtor(level, plan))
+			for _, piece := range gen.Split(t, "own.split", payload, 3) {
+				if _, err := ow.Write(piece); err != nil {
+					t.Fatalf("wsflate.Writer.Write: %v", err)
+				}
+			}
+			if err := ow.Close(); err != nil {
+				t.Fatalf("wsflate.Writer.Close: %v", err)
+			}
+			inputs = append(inputs, compressedInput{"own wsflate.Writer, Write*+Close without Flush", mk(orec.Bytes())})
+			for _, in := range inputs[2:] {
+				if got, err := inflateLoose(in.f.Payload); err != nil || !bytes.Equal(got, payload) {
+					t.Fatalf("harness/oracle: %s: %s ++ 0000ffff does not inflate to the message with the independent decoder: %v", in.src, short(in.f.Payload), err)
+				}
+			}
+		}
 
-		for i, c := range []ws.Frame{cf, extFrame} {
-			src := [2]string{"own", "independent"}[i]
+		for _, in := range inputs {
+			src, c := in.src, in.f
 			c.Payload = append([]byte(nil), c.Payload...)
 			keep := append([]byte(nil), c.Payload...)
 			var df ws.Frame
@@ -861,6 +939,88 @@ func TestFrameHelpers(t *testing.T) {
 			t.Fatalf("DecompressFrame accepted a non-final frame %s", hdrString(nf.Header))
 		}
 	})
+}
+
+// The worked examples of RFC 7692 §7.2.3 (all say "Hello"; §7.2.3.2 needs the
+// context of a previous message and is left out).
+var rfcVectors = []struct {
+	Name string
+	Hex  []byte
+}{
+	{"7.2.3.1 one compressed block", []byte{0xf2, 0x48, 0xcd, 0xc9, 0xc9, 0x07, 0x00}},
+	{"7.2.3.3 block with no compression", []byte{0x01, 0x05, 0x00, 0xfa, 0xff, 0x48, 0x65, 0x6c, 0x6c, 0x6f, 0x00}},
+	{"7.2.3.4 block with BFINAL=1", []byte{0xf3, 0x48, 0xcd, 0xc9, 0xc9, 0x07, 0x00, 0x00}},
+	{"7.2.3.5 two blocks in one message", []byte{0xf2, 0x48, 0x05, 0x00, 0x00, 0x00, 0xff, 0xff, 0xca, 0xc9, 0xc9, 0x07, 0x00}},
+}
+
+func TestRFCVectors(t *testing.T) {
+	want := []byte("Hello")
+	n := 0
+	for _, v := range rfcVectors {
+		if got, err := inflateLoose(v.Hex); err != nil || !bytes.Equal(got, want) {
+			hx.Failf(t, v.Name, "harness: the independent decoder reads %x as %q, %v", v.Hex, got, err)
+			return
+		}
+		hx.NonTrivial(hx.Hash("rfc", v.Name), func() interface{} {
+			return map[string]interface{}{"test": "rfc-vectors", "vector": v.Name, "payload_hex": fmt.Sprintf("%x", v.Hex)}
+		})
+		// wsflate.Reader under every chunking / source kind / caller buffer
+		for cut := 0; cut <= len(v.Hex); cut++ {
+			for _, br := range []bool{false, true} {
+				for _, ewd := range []bool{false, true} {
+					for _, rb := range []int{1, 3, 512} {
+						for _, std := range []int{0, 1} {
+							plan := srcPlan{Chunks: []int{cut, 1 << 30}, ByteReader: br, EOFWithData: ewd, ReadBuf: rb, Std: std}
+							if cut == 0 {
+								plan.Chunks = []int{1}
+							}
+							n++
+							hx.Eval()
+							got, msg := decompress(v.Hex, plan)
+							if msg != "" || !bytes.Equal(got, want) {
+								hx.Failf(t, map[string]interface{}{"vector": v.Name, "plan": fmt.Sprintf("%+v", plan)}, "wsflate.Reader on RFC 7692 §%s (%x): got %q %s, want %q", v.Name, v.Hex, got, msg, want)
+								return
+							}
+						}
+					}
+				}
+			}
+		}
+		// helpers
+		for _, op := range []ws.OpCode{ws.OpText, ws.OpBinary} {
+			f := ws.NewFrame(op, true, append([]byte(nil), v.Hex...))
+			f.Header.Rsv = 0x4
+			wantH := ws.NewFrame(op, true, want).Header
+			var b1 bytes.Buffer
+			var g growBuf
+			var gb growBuf
+			type res struct {
+				name string
+				f    ws.Frame
+				err  error
+			}
+			var rs []res
+			d, err := wsflate.DecompressFrame(f)
+			rs = append(rs, res{"DecompressFrame", d, err})
+			d, err = wsflate.DecompressFrameBuffer(&b1, f)
+			rs = append(rs, res{"DecompressFrameBuffer(bytes.Buffer)", d, err})
+			d, err = wsflate.DefaultHelper.DecompressFrameBuffer(&g, f)
+			rs = append(rs, res{"Helper.DecompressFrameBuffer(custom Buffer)", d, err})
+			p, err := wsflate.DefaultHelper.Decompress(v.Hex)
+			rs = append(rs, res{"Helper.Decompress", ws.Frame{Header: wantH, Payload: p}, err})
+			err = wsflate.DefaultHelper.DecompressTo(&gb, v.Hex)
+			rs = append(rs, res{"Helper.DecompressTo", ws.Frame{Header: wantH, Payload: gb.b}, err})
+			for _, r := range rs {
+				n++
+				hx.Eval()
+				if r.err != nil || r.f.Header != wantH || !bytes.Equal(r.f.Payload, want) {
+					hx.Failf(t, map[string]interface{}{"vector": v.Name, "api": r.name}, "%s on RFC 7692 §%s (%x): header %s payload %q err %v; want %s %q", r.name, v.Name, v.Hex, hdrString(r.f.Header), r.f.Payload, r.err, hdrString(wantH), want)
+					return
+				}
+			}
+		}
+	}
+	hx.Part("RFC 7692 §7.2.3 examples x every cut x source kind x caller buffer; x decompress API", int64(n), true)
 }
 
 // Results the library allocates itself must stay valid when the helper is
